@@ -66,6 +66,22 @@ try:
     for k in ['diacritics', 'vowels', 'tones']:
         h.update(repr(rc(k)).encode())
         out['inventories'][k] = hashlib.sha256(repr(rc(k)).encode()).hexdigest()
+    # the other shipped schema (ASJP-based models and inventories), asked for in both spellings the loader accepts, then back to the default
+    from lingpy.data.model import load_dvt
+    for spelling in ('evolaemp', 'el', ''):
+        v = load_dvt(spelling)
+        h.update(repr(v).encode())
+        out['inventories']['load_dvt(%r)' % spelling] = hashlib.sha256(repr(v).encode()).hexdigest()
+    rc(schema='evolaemp')
+    for m in ['asjp', 'sca', 'dolgo']:
+        h.update(repr(sorted(rc(m).converter.items())).encode())
+        out['converters'][rc(m).name] = hashlib.sha256(repr(sorted(rc(m).converter.items())).encode()).hexdigest()
+    for k in ['diacritics', 'vowels', 'tones']:
+        h.update(repr(rc(k)).encode())
+    rc(schema='ipa')
+    for k in ['diacritics', 'vowels', 'tones']:
+        h.update(repr(rc(k)).encode())
+        out['inventories'][k + ' (after switching the schema and back)'] = hashlib.sha256(repr(rc(k)).encode()).hexdigest()
     out['digest'] = h.hexdigest()
 except BaseException as e:
     out = {'ok': False, 'error': type(e).__name__ + ': ' + str(e)[:200]}
